@@ -141,3 +141,11 @@ def _(ins, scal, dims, params):
         path = _npz(tmp, {k: ins[k].float() for k in ("locs", "depot", "demand", "capacity")})
         out = CVRPEnv.load_data(path)
     return {k: out[k] for k in ("locs", "depot", "demand", "capacity")}
+
+
+@scenario("cvrp.generator.init")
+def _(ins, scal, dims, params):
+    from rl4co.envs.routing.cvrp.generator import CVRPGenerator
+
+    cap = float(scal["capacity"])
+    return {f"explicit{n}": float(CVRPGenerator(num_loc=n, capacity=cap).capacity) for n in (20, 50, 23)}
